@@ -1,0 +1,70 @@
+//go:build verif
+
+package encoder
+
+import "math"
+
+// Specification vocabulary for the //@ contracts in verif_contracts.go.
+
+// Round trips: encode a value, decode the bytes into a fresh zero value (what
+// DecodeObject does), compare. Bit equality for floats.
+
+func specIntRoundTrip(v Int) bool {
+	data, err := v.MarshalBinary()
+	if err != nil {
+		return false
+	}
+	var out Int
+	if err := out.UnmarshalBinary(data); err != nil {
+		return false
+	}
+	return out == v
+}
+
+func specUintRoundTrip(v Uint) bool {
+	data, err := v.MarshalBinary()
+	if err != nil {
+		return false
+	}
+	var out Uint
+	if err := out.UnmarshalBinary(data); err != nil {
+		return false
+	}
+	return out == v
+}
+
+func specCharRoundTrip(v Char) bool {
+	data, err := v.MarshalBinary()
+	if err != nil {
+		return false
+	}
+	var out Char
+	if err := out.UnmarshalBinary(data); err != nil {
+		return false
+	}
+	return out == v
+}
+
+func specFloatRoundTrip(v Float) bool {
+	data, err := v.MarshalBinary()
+	if err != nil {
+		return false
+	}
+	var out Float
+	if err := out.UnmarshalBinary(data); err != nil {
+		return false
+	}
+	return math.Float64bits(float64(out)) == math.Float64bits(float64(v))
+}
+
+func specBoolRoundTrip(v Bool) bool {
+	data, err := v.MarshalBinary()
+	if err != nil {
+		return false
+	}
+	var out Bool
+	if err := out.UnmarshalBinary(data); err != nil {
+		return false
+	}
+	return out == v
+}
